@@ -640,8 +640,8 @@ func Access(objf func() any, field string, write bool, site string) {
 		return
 	}
 	t := r.me()
-	if r.stop.Load() || r.holder.Load() != t {
-		return
+	if r.stop.Load() || r.holder.Load() != t || t.noYield > 0 {
+		return // (oracle code running under NoYield is not part of the system)
 	}
 	var obj any
 	func() {
